@@ -56,7 +56,10 @@ def import_eups():
         p = os.path.join(REPO, "python")
         if p not in sys.path:
             sys.path.insert(0, p)
+        # never read or write byte-code caches: a stale __pycache__ entry (same size, same mtime second)
+        # must not be able to hide an edit of the source under test
         sys.dont_write_bytecode = True
+        sys.pycache_prefix = os.path.join(WORK, "no-pycache-%d" % os.getpid())
         import eups  # noqa: F401
         f = os.path.abspath(sys.modules["eups"].__file__)
         assert f.startswith(os.path.abspath(p) + os.sep), "eups imported from %s, not %s" % (f, p)
